@@ -45,6 +45,12 @@ def gen(seed, tier="quick"):
     ax = np.array([ic.gauss(0, 1) for _ in range(3)])
     ax /= np.linalg.norm(ax)
     ang = ic.uniform(0, math.pi)
+    initialize = ic.random() < 0.5
+    if not initialize:
+        # started at zero, the estimator is `ang` away from the truth; within a few degrees of 180 the
+        # error decays slowly (0.032 rad left at t = 20 s from 175 degrees, the worst of 4300 runs), so
+        # the zero-start case is drawn from a box of 160 degrees
+        ang = min(ang, 2.8)
     r0 = (math.tan(ang / 4) * ax).tolist()
     b0 = [ic.uniform(-0.1, 0.1) for _ in range(3)]
     dt_sim = knobs.choice([1 / 1000, 1 / 800, 1 / 500, 1 / 400, 1 / 400, 1 / 250, 1 / 200])
@@ -83,7 +89,7 @@ def gen(seed, tier="quick"):
         "policy": knobs.choice(["fifo", "lifo", "random"]),
         "sched_seed": seed,
         "x0": r0 + b0,
-        "initialize": ic.random() < 0.5,
+        "initialize": initialize,
         "params": {
             "sim/dt_sim": dt_sim,
             "sim/dt_imu": dt_imu,
